@@ -301,7 +301,8 @@ CONFIGS = [
 
 
 def view_prefix(cfg):
-    return cfg["p"] if cfg["ctor"] == "generic" and cfg.get("p") else b""
+    # a PrefixFS mounted at "/" re-roots nothing: view paths are world paths
+    return cfg["p"] if cfg["ctor"] == "generic" and cfg.get("p") and cfg["p"] != b"/" else b""
 
 
 def world_path(cfg, v):
